@@ -320,11 +320,13 @@ class SchemaLoaderWiki(SchemaLoader):
             str: The tag name.
 
         """
-        if row.find(extend_here_line) != -1:
-            return '', 0
         for invalid_chars in invalid_characters_to_strip:
             row = row.replace(invalid_chars, "")
         match = tag_name_re.search(row)
+        # The placeholder is a node name: the words may appear freely in a description or an attribute value.
+        name_part = match.group(2) if match else row
+        if name_part.find(extend_here_line) != -1:
+            return '', 0
         if match:
             tag_name = match.group(2).strip()
             if tag_name:
